@@ -1047,7 +1047,7 @@ func bboxEmittedRule(p *core.Program, r *core.Report, rule string) {
 
 // validatorThresholdRule (C06): minimum sizes of linestrings and rings are counted in coordinates of the current layout.
 func validatorThresholdRule(p *core.Program, r *core.Report, rule string) {
-	r.Rule(rule, "isValidLineString rejects fewer than 2 and isValidPolygonRing fewer than 4 coordinates, counted as len(flatCoords) < k*stride with stride = curLayout().Stride() (all ordinates, M included), and the ring closure test compares ordinate i with ordinate len-stride+i", 2)
+	r.Rule(rule, "CONSTEVAL: isValidLineString / isValidPolygonRing evaluated with curLayout().Stride() bound to s in {2,3,4} and len(flatCoords) bound to n return false for n = (k-1)*s and do not return false outright for n = k*s, k = 2 for linestrings and 4 for rings: the minimum is counted in whole coordinates of the current layout, M included (helpers the test was moved into are evaluated as part of the validator)", 2)
 	for _, v := range []struct {
 		name string
 		k    int64
@@ -1056,49 +1056,35 @@ func validatorThresholdRule(p *core.Program, r *core.Report, rule string) {
 		if fn == nil {
 			continue
 		}
-		ok, why := false, fmt.Sprintf("no test `len(flatCoords) < %d*stride` with stride = curLayout().Stride()", v.k)
-		isStrideCall := func(x ssa.Value) bool {
-			c, isC := x.(*ssa.Call)
-			if !isC {
-				return false
+		eval := func(stride, n int64) eng.CVal {
+			ev := &eng.ConstEval{MaxDepth: 4}
+			ev.Override = func(f *ssa.Function, x ssa.Value, args []eng.CVal) (eng.CVal, bool) {
+				c, ok := x.(*ssa.Call)
+				if !ok {
+					return eng.CVal{}, false
+				}
+				if b, isB := c.Call.Value.(*ssa.Builtin); isB && b.Name() == "len" && isFloatSlice(c.Call.Args[0].Type()) {
+					return eng.IntV(n), true
+				}
+				if o := eng.CalleeObj(c); o != nil && o.Name() == "Stride" && o.Pkg() != nil && o.Pkg().Path() == mod {
+					return eng.IntV(stride), true
+				}
+				return eng.CVal{}, false
 			}
-			o := eng.CalleeObj(c)
-			if o == nil || o.Name() != "Stride" {
-				return false
-			}
-			recv, isR := c.Call.Args[0].(*ssa.Call)
-			return isR && recv.Call.StaticCallee() != nil && recv.Call.StaticCallee().Name() == "curLayout"
+			return ev.Run(fn, nil).Ret
 		}
-		for _, b := range fn.Blocks {
-			c, okc := eng.EdgeCmp(b, 0)
-			if !okc || c.Op != token.LSS {
-				continue
+		bad := ""
+		for _, st := range []int64{2, 3, 4} {
+			below := eval(st, (v.k-1)*st)
+			at := eval(st, v.k*st)
+			if b, ok := below.Bool(); !ok || b {
+				bad = fmt.Sprintf("with stride %d, %d coordinates (%d ordinates) are not rejected outright (result %s): the minimum is not %d whole coordinates of the current layout", st, v.k-1, (v.k-1)*st, below, v.k)
 			}
-			lc, isL := c.X.(*ssa.Call)
-			if !isL || eng.BuiltinName(lc) != "len" || lc.Call.Args[0] != ssa.Value(fn.Params[1]) {
-				continue
-			}
-			mul, isM := c.Y.(*ssa.BinOp)
-			if !isM || mul.Op != token.MUL {
-				why = "the minimum size is not a multiple of the stride"
-				continue
-			}
-			k, isK := eng.ConstInt(mul.X)
-			other := mul.Y
-			if !isK {
-				k, isK = eng.ConstInt(mul.Y)
-				other = mul.X
-			}
-			switch {
-			case !isK || k != v.k:
-				why = fmt.Sprintf("the minimum number of coordinates is %d, want %d", k, v.k)
-			case !isStrideCall(other):
-				why = "the minimum size is counted in units of " + other.String() + ", not of curLayout().Stride(): for layouts with M a ring of fewer coordinates passes"
-			default:
-				ok = true
+			if b, ok := at.Bool(); ok && !b {
+				bad = fmt.Sprintf("with stride %d, %d coordinates are rejected: the minimum is more than %d", st, v.k, v.k)
 			}
 		}
-		r.Check(ok, rule, short(fn), p.Pos(fn.Pos()), true, fmt.Sprintf("len(flatCoords) < %d*curLayout().Stride() is rejected", v.k), why)
+		r.Check(bad == "", rule, short(fn), p.Pos(fn.Pos()), true, fmt.Sprintf("fewer than %d coordinates of the current layout are rejected", v.k), bad)
 	}
 }
 
